@@ -8,7 +8,7 @@
    real Divergence / mortar_to_primary_int / mortar_to_secondary_int matrices of generated
    fractured md-grids and Coq evaluates [cert_ok] on them; [C04_certificate_sound] turns a
    passed certificate into the hypotheses of [C04_conservation]. *)
-From Coq Require Import List ZArith QArith Ring_theory RelationClasses.
+From Coq Require Import List ZArith QArith Qabs Ring_theory RelationClasses.
 Import ListNotations.
 From PP Require Import Model.C04 Proofs.C04.
 
@@ -130,6 +130,25 @@ Theorem C04_adflux_conservation_partial :
     == qtotal (s_nc S) acc.
 Proof. exact certified_partial. Qed.
 Print Assumptions C04_adflux_conservation_partial.
+
+(* (8) Non-matching mortar / fracture grids (projection entries like 1/3, column sums equal
+   to 1 only up to float rounding): the certificate [cert_ok_tol] (supports exact, column
+   sums within 1e-12) gives the exact balance  sum residual = sum acc + sum_m colsum_p(m)
+   lamf(m) - sum_m colsum_s(m) lams(m)  with both column sums within 1e-12 of one, i.e.
+   conservation up to 2e-12 * sum |lam|.  A source built with mortar_to_secondary_avg
+   (column sums 0.6, 2/3, ...) cannot pass it. *)
+Theorem C04_certificate_tol_sound :
+  forall (S : structure) (acc a lamf lams : nat -> Q),
+    cert_ok_tol S = true ->
+    (forall f, (f < s_nf S)%nat -> is_boundary (s_div S) f = true -> a f == 0) ->
+    qtotal (s_nc S) (qresidual2 (s_div S) (s_pp S) (s_ps S) acc a lamf lams (fun _ => 0))
+    == qtotal (s_nc S) acc + qtotal (s_nm S) (fun m => qpcolsum (s_pp S) m * lamf m)
+       - qtotal (s_nm S) (fun m => qpcolsum (s_ps S) m * lams m)
+    /\ forall m, (m < s_nm S)%nat ->
+                 Qabs (qpcolsum (s_pp S) m - 1) <= 1 # 1000000000000 /\
+                 Qabs (qpcolsum (s_ps S) m - 1) <= 1 # 1000000000000.
+Proof. exact certified_tol. Qed.
+Print Assumptions C04_certificate_tol_sound.
 
 (* Non-vacuity: three 1-D cells (0,1 | 2) cut by a 0-d fracture cell 3 between cells 1 and
    2; faces 0..4 (face 1 interior, faces 2 and 3 the two sides of the fracture), two mortar
